@@ -1338,4 +1338,360 @@ example : CopyOK (newNode St.empty 0 0 0 true) 0 [0] := by
   · intro x hx; simp at hx; subst hx; simp [newNode, St.empty]
   · intro p c hc; rw [show (newNode St.empty 0 0 0 true).kids _ = [] from by (show (if _ = (0:Nat) then ([] : List Nat) else []) = []); exact ite_self _] at hc; cases hc
 
+
+/-! ### the pigeonhole depth bound, acyclicity of the copy -/
+
+private theorem nodup_bounded_length : ∀ (N : Nat) (l : List Nat), l.Nodup → (∀ x ∈ l, x < N) → l.length ≤ N
+  | 0, l, _, hb => by
+    cases l with
+    | nil => simp
+    | cons a _ => have := hb a (by simp); omega
+  | N + 1, l, hnd, hb => by
+    have h1 : (l.erase N).Nodup := hnd.erase N
+    have h2 : ∀ x ∈ l.erase N, x < N := by
+      intro x hx
+      have hxl := List.mem_of_mem_erase hx
+      have hne : x ≠ N := by intro e; subst e; exact (List.Nodup.not_mem_erase hnd) hx
+      have := hb x hxl; omega
+    have ih := nodup_bounded_length N (l.erase N) h1 h2
+    have hl : l.length ≤ (l.erase N).length + 1 := by
+      rw [List.length_erase]; split <;> omega
+    omega
+
+/-- the objects on a downward path of length `k`: `k + 1` pairwise different live ids -/
+private theorem descN_chain (s : St) (d : Nat → Nat) (hinv : Inv s) (hd : DepthFn s d)
+    (hb : ∀ p c, c ∈ s.kids p → c < s.next ∧ p < s.next) {k n m : Nat} (h : DescN s k n m) :
+    ∃ l : List Nat, l.length = k + 1 ∧ l.Pairwise (fun a b => d a < d b) ∧
+      (∀ x ∈ l, d n ≤ d x) ∧ (∀ x ∈ l, x < s.next) := by
+  induction h with
+  | @child n c hc =>
+    have hlt := hd _ _ (hinv.1 _ _ hc)
+    refine ⟨[n, c], rfl, ?_, ?_, ?_⟩
+    · simp [hlt]
+    · intro x hx; simp at hx; rcases hx with e | e <;> subst e <;> omega
+    · intro x hx; simp at hx; have := hb n c hc; rcases hx with e | e <;> subst e <;> omega
+  | @step k n c m hc _ ih =>
+    obtain ⟨l, hl, hp, hmin, hlive⟩ := ih
+    have hlt := hd _ _ (hinv.1 _ _ hc)
+    refine ⟨n :: l, by simp [hl], ?_, ?_, ?_⟩
+    · rw [List.pairwise_cons]; exact ⟨fun x hx => by have := hmin x hx; omega, hp⟩
+    · intro x hx; rcases List.mem_cons.mp hx with e | hx'
+      · subst e; omega
+      · have := hmin x hx'; omega
+    · intro x hx; rcases List.mem_cons.mp hx with e | hx'
+      · subst e; exact (hb _ _ hc).2
+      · exact hlive x hx'
+
+/-- **pigeonhole depth bound**: in a well-formed acyclic state whose ids are live no object lies deeper
+below another than the number of objects -/
+theorem depth_bound (s : St) (d : Nat → Nat) (hinv : Inv s) (hd : DepthFn s d)
+    (hb : ∀ p c, c ∈ s.kids p → c < s.next ∧ p < s.next) {k n m : Nat} (h : DescN s k n m) : k + 1 ≤ s.next := by
+  obtain ⟨l, hl, hp, _, hlive⟩ := descN_chain s d hinv hd hb h
+  have hnd : l.Nodup := hp.imp (by intro a b hab e; subst e; omega)
+  have := nodup_bounded_length s.next l hnd hlive
+  omega
+
+/-- the list the copy works on meets every hypothesis of `copy_spec` -- no extra assumption -/
+theorem copyOK_subtree' (s : St) (d : Nat → Nat) (hinv : Inv s) (hd : DepthFn s d) (n : Nat) (hn : n < s.next)
+    (hb : ∀ p c, c ∈ s.kids p → c < s.next ∧ p < s.next) : CopyOK s n (subtreeList s n) :=
+  copyOK_subtree s d hinv hd n hn hb (fun k m h => by have := depth_bound s d hinv hd hb h; omega)
+
+/-- **copy_acyclic**: the state with the copy added is still acyclic (depth of a copy = depth of its original) -/
+theorem copy_acyclic (s : St) (n : Nat) (L : List Nat) (hc : CopyOK s n L) (hinv : Inv s) (d : Nat → Nat)
+    (hd : DepthFn s d) : Acyclic (copyWith s L) := by
+  refine ⟨fun x => if (decide (s.next ≤ x) && decide (x < s.next + L.length)) = true
+      then d (L.getD (x - s.next) 0) else d x, ?_⟩
+  intro c' p' hpar
+  by_cases hcnew : (decide (s.next ≤ c') && decide (c' < s.next + L.length)) = true
+  · have hp0 := hpar
+    simp only [copyWith, hcnew, if_true] at hpar
+    by_cases hbase : c' = s.next
+    · simp [hbase] at hpar
+    · simp only [hbase, if_false] at hpar
+      cases hf : L.find? (fun q => decide (L.getD (c' - s.next) 0 ∈ s.kids q)) with
+      | none => rw [hf] at hpar; simp at hpar
+      | some q =>
+        rw [hf] at hpar
+        simp at hpar
+        have hqL := List.mem_of_find?_eq_some hf
+        have hq := List.find?_some hf
+        simp at hq
+        have hl := List.idxOf_lt_length_of_mem hqL
+        have hpnew : (decide (s.next ≤ p') && decide (p' < s.next + L.length)) = true := by
+          simp; omega
+        have horig : L.getD (p' - s.next) 0 = q := by
+          have : p' - s.next = L.idxOf q := by omega
+          rw [this]; exact getD_idx L q hqL
+        simp only [hcnew, hpnew, if_true, horig]
+        exact hd _ _ (hinv.1 q _ hq)
+  · have hc' : (decide (s.next ≤ c') && decide (c' < s.next + L.length)) = false := by simpa using hcnew
+    have hpar' : s.parent c' = some p' := by
+      have := hpar; simp only [copyWith, hc', Bool.false_eq_true, if_false] at this; exact this
+    have hk := hinv.2 c' p' hpar'
+    have hbd := hc.bounded p' c' hk
+    have hp' : (decide (s.next ≤ p') && decide (p' < s.next + L.length)) = false := by simp; omega
+    simp only [hc', hp', Bool.false_eq_true, if_false]
+    exact hd _ _ hpar'
+
+/-- the ids stay live after a copy -/
+theorem copy_bounded (s : St) (n : Nat) (L : List Nat) (hc : CopyOK s n L) (hinv : Inv s) :
+    ∀ p c, c ∈ (copyWith s L).kids p → c < (copyWith s L).next ∧ p < (copyWith s L).next := by
+  intro p' c' hk
+  have hnext : (copyWith s L).next = s.next + L.length := rfl
+  by_cases hp : (decide (s.next ≤ p') && decide (p' < s.next + L.length)) = true
+  · have hk' : c' ∈ (s.kids (L.getD (p' - s.next) 0)).map (fun o => s.next + L.idxOf o) := by
+      have := hk; simp only [copyWith, hp, if_true] at this; exact this
+    obtain ⟨c, hcn, rfl⟩ := List.mem_map.mp hk'
+    simp at hp
+    have ho := (idx_getD L hc.nodup (p' - s.next) (by omega)).1
+    have := List.idxOf_lt_length_of_mem (hc.closed _ ho c hcn)
+    rw [hnext]; omega
+  · have hp' : (decide (s.next ≤ p') && decide (p' < s.next + L.length)) = false := by simpa using hp
+    have hk' : c' ∈ s.kids p' := by
+      have := hk; simp only [copyWith, hp', Bool.false_eq_true, if_false] at this; exact this
+    have := hc.bounded p' c' hk'
+    rw [hnext]; omega
+
+/-! ### copy / pickle inside the op alphabet: `Inv ∧ Acyclic ∧ Live` along every run -/
+
+/-- every id that occurs in a child list (as lister or as child) is a live object -/
+def Live (s : St) : Prop := ∀ p c, c ∈ s.kids p → c < s.next ∧ p < s.next
+
+private def PLive (s : St) : Prop := ∀ c q, s.parent c = some q → c < s.next ∧ q < s.next
+
+private theorem plive_of_live {s : St} (hi : Inv s) (h : Live s) : PLive s :=
+  fun c q hp => h q c (hi.2 c q hp)
+private theorem live_of_plive {s : St} (hi : Inv s) (h : PLive s) : Live s :=
+  fun p c hk => h c p (hi.1 p c hk)
+
+/-- transfer: new parent pointers are old ones or connect live objects -/
+private theorem plive_transfer {s t : St} (hn : s.next ≤ t.next)
+    (h : ∀ x q, t.parent x = some q → s.parent x = some q ∨ (x < t.next ∧ q < t.next)) (hs : PLive s) : PLive t := by
+  intro c q hp
+  rcases h c q hp with h1 | h2
+  · have := hs c q h1; omega
+  · exact h2
+
+private theorem add_parent_self (s : St) (p c : Nat) :
+    (add s p c).1.parent c = some p ∨ (add s p c).1.parent c = s.parent c := by
+  unfold add cAdd reestablish
+  repeat' split
+  all_goals simp_all [setKids, setLoc, setParent]
+
+private theorem insert_parent_other (s : St) (p : Nat) (i : Int) (c x : Nat) (hx : x ≠ c) :
+    (insert s p i c).1.parent x = s.parent x := by
+  unfold insert cInsert
+  repeat' split
+  all_goals simp_all [setKids, setLoc, setParent]
+
+private theorem insert_parent_self (s : St) (p : Nat) (i : Int) (c : Nat) :
+    (insert s p i c).1.parent c = some p ∨ (insert s p i c).1.parent c = s.parent c := by
+  unfold insert cInsert
+  repeat' split
+  all_goals simp_all [setKids, setLoc, setParent]
+
+private theorem add_next (s : St) (p c : Nat) : (add s p c).1.next = s.next := by
+  unfold add cAdd reestablish
+  repeat' split
+  all_goals simp_all [setKids, setLoc, setParent]
+
+private theorem insert_next (s : St) (p : Nat) (i : Int) (c : Nat) : (insert s p i c).1.next = s.next := by
+  unfold insert cInsert
+  repeat' split
+  all_goals simp_all [setKids, setLoc, setParent]
+
+private theorem cRemove_next (s : St) (p c : Nat) : (cRemove s p c).1.next = s.next := by
+  unfold cRemove; split <;> rfl
+
+private theorem removeAll_next (s : St) (p : Nat) : (removeAll s p).1.next = s.next :=
+  seqOps_keeps (fun t => t.next = s.next) (fun t c => remove t p c)
+    (fun t c h => by show (cRemove t p c).1.next = s.next; rw [cRemove_next]; exact h) _ s true rfl
+
+private theorem seqAdd_next (p : Nat) (l : List Nat) (s : St) : (seqOps (fun t c => add t p c) s l).1.next = s.next :=
+  seqOps_keeps (fun t => t.next = s.next) (fun t c => add t p c)
+    (fun t c h => by rw [add_next]; exact h) l s true rfl
+
+private theorem seqAdd_parent (p : Nat) : ∀ (l : List Nat) (s : St) (b : Bool) (x q : Nat),
+    (l.foldl (fun acc c => if acc.2 then add acc.1 p c else acc) (s, b)).1.parent x = some q →
+      s.parent x = some q ∨ (x ∈ l ∧ q = p)
+  | [], _, _, _, _, h => Or.inl h
+  | c :: rest, s, b, x, q, h => by
+    rw [List.foldl_cons] at h
+    cases b with
+    | false =>
+      rcases seqAdd_parent p rest s false x q h with h1 | h2
+      · exact Or.inl h1
+      · exact Or.inr ⟨List.mem_cons_of_mem _ h2.1, h2.2⟩
+    | true =>
+      simp only [if_true] at h
+      rcases seqAdd_parent p rest (add s p c).1 (add s p c).2 x q h with h1 | h2
+      · by_cases hx : x = c
+        · subst hx
+          rcases add_parent_self s p x with e | e
+          · rw [e] at h1; cases h1; exact Or.inr ⟨by simp, rfl⟩
+          · rw [e] at h1; exact Or.inl h1
+        · rw [add_parent_other s p c x hx] at h1; exact Or.inl h1
+      · exact Or.inr ⟨List.mem_cons_of_mem _ h2.1, h2.2⟩
+
+private theorem sortRec_next (rank : Nat → Nat) : ∀ (f : Nat) (s : St) (p : Nat), (sortRec rank f s p).next = s.next
+  | 0, _, _ => rfl
+  | f + 1, s, p => by
+    unfold sortRec
+    have : ∀ (l : List Nat) (t : St), (l.foldl (fun t c => sortRec rank f t c) t).next = t.next := by
+      intro l; induction l with
+      | nil => intro t; rfl
+      | cons a l ih => intro t; rw [List.foldl_cons, ih, sortRec_next rank f t a]
+    rw [this]; rfl
+
+/-- well formed, acyclic, all ids live -/
+def WFL (s : St) : Prop := Inv s ∧ Acyclic s ∧ Live s
+
+/-- valid use, with liveness of the ids named by the operation; `copy n` (deepcopy or a pickle round trip of the
+subtree below a live object) needs nothing else -/
+def PreL (s : St) : Op → Prop
+  | .add p c => p < s.next ∧ c < s.next ∧ s.parent c = none ∧ ¬ Anc s c p
+  | .insert p i c => p < s.next ∧ c < s.next ∧ s.parent c = none ∧ ¬ Anc s c p
+  | .setChildren p items => p < s.next ∧ (∀ c ∈ items, c < s.next) ∧ items.Nodup ∧
+      ∀ c ∈ items, (s.parent c = none ∨ s.parent c = some p) ∧ ¬ Anc s c p
+  | .copy n => n < s.next
+  | op => PreA s op
+
+/-- **One step, copy and pickle included, keeps the forest well formed, acyclic and live.** -/
+theorem wfl_step (s : St) (op : Op) (h : WFL s) (hp : PreL s op) : WFL (step s op) := by
+  obtain ⟨hi, ha, hl⟩ := h
+  have hpl := plive_of_live hi hl
+  cases op with
+  | new k f t g =>
+    have hw := wft_step s (.new k f t g) ⟨hi, ha⟩ hp
+    refine ⟨hw.1, hw.2, live_of_plive hw.1 ?_⟩
+    apply plive_transfer (s := s) (by simp [step, newNode]) _ hpl
+    intro x q hx
+    left
+    simp only [step, newNode] at hx
+    by_cases e : x = s.next
+    · simp [e] at hx
+    · simpa [e] using hx
+  | add p c =>
+    have hw := wft_step s (.add p c) ⟨hi, ha⟩ ⟨hp.2.2.1, hp.2.2.2⟩
+    refine ⟨hw.1, hw.2, live_of_plive hw.1 ?_⟩
+    apply plive_transfer (s := s) (by simp [step, add_next]) _ hpl
+    intro x q hx
+    simp only [step] at hx ⊢
+    rw [add_next]
+    by_cases e : x = c
+    · subst e
+      rcases add_parent_self s p x with e1 | e1
+      · rw [e1] at hx; cases hx; exact Or.inr ⟨hp.2.1, hp.1⟩
+      · rw [e1] at hx; exact Or.inl hx
+    · rw [add_parent_other s p c x e] at hx; exact Or.inl hx
+  | insert p i c =>
+    have hw := wft_step s (.insert p i c) ⟨hi, ha⟩ ⟨hp.2.2.1, hp.2.2.2⟩
+    refine ⟨hw.1, hw.2, live_of_plive hw.1 ?_⟩
+    apply plive_transfer (s := s) (by simp [step, insert_next]) _ hpl
+    intro x q hx
+    simp only [step] at hx ⊢
+    rw [insert_next]
+    by_cases e : x = c
+    · subst e
+      rcases insert_parent_self s p i x with e1 | e1
+      · rw [e1] at hx; cases hx; exact Or.inr ⟨hp.2.1, hp.1⟩
+      · rw [e1] at hx; exact Or.inl hx
+    · rw [insert_parent_other s p i c x e] at hx; exact Or.inl hx
+  | remove p c =>
+    have hw := wft_step s (.remove p c) ⟨hi, ha⟩ hp
+    refine ⟨hw.1, hw.2, live_of_plive hw.1 ?_⟩
+    apply plive_transfer (s := s) (by simp [step, remove, cRemove_next]) _ hpl
+    intro x q hx
+    left
+    simp only [step, remove] at hx
+    by_cases e : x = c
+    · subst e; unfold cRemove at hx; split at hx <;> simp [setKids, setLoc, setParent] at hx
+    · rw [cRemove_parent_other s p c x e] at hx; exact hx
+  | removeAll p =>
+    have hw := wft_step s (.removeAll p) ⟨hi, ha⟩ hp
+    refine ⟨hw.1, hw.2, live_of_plive hw.1 ?_⟩
+    apply plive_transfer (s := s) (by simp [step, removeAll_next]) _ hpl
+    intro x q hx
+    left
+    simp only [step] at hx
+    obtain ⟨_, _, _, i4, i5⟩ := removeAll_inv s p hi
+    by_cases e : x ∈ s.kids p
+    · rw [i4 x e] at hx; cases hx
+    · rw [i5 x e] at hx; exact hx
+  | setChildren p items =>
+    have hw := wft_step s (.setChildren p items) ⟨hi, ha⟩ ⟨hp.2.2.1, hp.2.2.2⟩
+    refine ⟨hw.1, hw.2, live_of_plive hw.1 ?_⟩
+    obtain ⟨_, i2, _, i4, i5⟩ := removeAll_inv s p hi
+    have hnext : (setChildren s p items).1.next = s.next := by
+      unfold setChildren; simp only [i2, if_true]; rw [seqAdd_next, removeAll_next]
+    apply plive_transfer (s := s) (by simp [step, hnext]) _ hpl
+    intro x q hx
+    simp only [step] at hx ⊢
+    rw [hnext]
+    unfold setChildren at hx
+    simp only [i2, if_true, seqOps] at hx
+    rcases seqAdd_parent p items _ true x q hx with h1 | h2
+    · left
+      by_cases e : x ∈ s.kids p
+      · rw [i4 x e] at h1; cases h1
+      · rw [i5 x e] at h1; exact h1
+    · right; rw [h2.2]; exact ⟨hp.2.1 x h2.1, hp.1⟩
+  | sort p rank =>
+    have hw := wft_step s (.sort p rank) ⟨hi, ha⟩ hp
+    refine ⟨hw.1, hw.2, live_of_plive hw.1 ?_⟩
+    apply plive_transfer (s := s) (by simp [step, sortRec_next]) _ hpl
+    intro x q hx
+    left
+    simp only [step] at hx
+    rw [(sortRec_samePerm _ _ s p).1] at hx; exact hx
+  | reestablish a =>
+    have hw := wft_step s (.reestablish a) ⟨hi, ha⟩ hp
+    exact ⟨hw.1, hw.2, live_of_plive hw.1 (plive_transfer (s := s) (Nat.le_refl _) (fun x q hx => Or.inl hx) hpl)⟩
+  | moveTo c hh =>
+    have hw := wft_step s (.moveTo c hh) ⟨hi, ha⟩ hp
+    refine ⟨hw.1, hw.2, live_of_plive hw.1 ?_⟩
+    have e : (step s (.moveTo c hh)).parent = s.parent ∧ (step s (.moveTo c hh)).next = s.next := by
+      simp only [step, moveTo]; split
+      · exact ⟨rfl, rfl⟩
+      · split <;> exact ⟨rfl, rfl⟩
+    apply plive_transfer (s := s) (by rw [e.2]; exact Nat.le_refl _) _ hpl
+    intro x q hx; left; rw [e.1] at hx; exact hx
+  | copy n =>
+    obtain ⟨d, hd⟩ := ha
+    have hc := copyOK_subtree' s d hi hd n hp hl
+    exact ⟨copy_inv s n _ hc hi, copy_acyclic s n _ hc hi d hd, copy_bounded s n _ hc hi⟩
+
+def PreAllL : St → List Op → Prop
+  | _, [] => True
+  | s, op :: rest => PreL s op ∧ PreAllL (step s op) rest
+
+/-- **Every reachable state -- edits, deep copies and pickle round trips in any order and number -- is a
+well-formed, acyclic forest of live objects.** -/
+theorem wfl_run : ∀ (ops : List Op) (s : St), WFL s → PreAllL s ops → WFL (ops.foldl step s)
+  | [], _, h, _ => h
+  | op :: rest, s, h, hp => wfl_run rest (step s op) (wfl_step s op h hp.1) hp.2
+
+theorem wfl_empty : WFL St.empty :=
+  ⟨inv_empty, wft_empty.2, by intro p c h; simp [St.empty] at h⟩
+
+/-- **copy_spec / pickle_spec at the copy the model makes** (`copy.deepcopy` and `pickle.loads(dumps())` both go
+through `__getstate__`/`__setstate__`: parent stripped, children re-parented, grid re-owned; the payload --
+parameters, serial numbers -- is C16's `pickle_equal` / `copy_equal_independent`): in every reachable state,
+for every live `n`, all clauses of `copy_spec` and the frame `copy_old` hold for `subtreeList s n`. -/
+theorem pickle_spec (s : St) (h : WFL s) (n : Nat) (hn : n < s.next) :
+    CopyOK s n (subtreeList s n) ∧ WFL (copyTree s n) ∧
+    (copyTree s n).parent (ren s (subtreeList s n) n) = none ∧
+    (∀ o ∈ subtreeList s n, s.next ≤ ren s (subtreeList s n) o) ∧
+    (∀ o ∈ subtreeList s n, (copyTree s n).kids (ren s (subtreeList s n) o) = (s.kids o).map (ren s (subtreeList s n))) ∧
+    (∀ o ∈ subtreeList s n, ∀ c ∈ s.kids o,
+        (copyTree s n).parent (ren s (subtreeList s n) c) = some (ren s (subtreeList s n) o)) ∧
+    (∀ x, x < s.next → (copyTree s n).parent x = s.parent x ∧ (copyTree s n).kids x = s.kids x) := by
+  obtain ⟨hi, ⟨d, hd⟩, hl⟩ := h
+  have hc := copyOK_subtree' s d hi hd n hn hl
+  obtain ⟨c1, _, c3, _, c5, c6, _, _⟩ := copy_spec s n _ hc hi
+  refine ⟨hc, wfl_step s (.copy n) ⟨hi, ⟨d, hd⟩, hl⟩ hn, c3, fun o ho => (c1 o ho).1, fun o ho => (c5 o ho).1, c6, ?_⟩
+  intro x hx
+  have := copy_old s n _ hc hi x hx
+  exact ⟨this.1, this.2.1⟩
+
 end ArmiVerif.Tree
